@@ -3,8 +3,10 @@
 package main
 
 import (
+	"encoding/json"
 	"errors"
 	"fmt"
+	"os"
 
 	"github.com/NethermindEth/juno/core"
 	"github.com/NethermindEth/juno/core/felt"
@@ -83,7 +85,68 @@ func probeFixesInner() string {
 	}
 	_, errSnap := core.GetRunningEventFilter(store)
 	_, errWin := core.GetAggregatedBloomFilter(store, 0, core.MaxBlockOffsetPerFilter)
-	return flag(a) + flag(errors.Is(errSnap, db.ErrKeyNotFound)) + flag(errors.Is(errWin, db.ErrKeyNotFound))
+	// (d) a lazy filter whose initialiser fails once: is the error kept?
+	calls := 0
+	lazy := core.NewRunningEventFilterLazy(memory.New(), func(d db.KeyValueStore) (*core.RunningEventFilter, error) {
+		calls++
+		if calls == 1 {
+			return nil, errInjected
+		}
+		return core.InitializeRunningEventFilter(d)
+	})
+	_, err1 := lazy.NextBlock()
+	_, err2 := lazy.NextBlock()
+	if err1 == nil {
+		panic("probe: the failing initialiser was not called")
+	}
+	return flag(a) + flag(errors.Is(errSnap, db.ErrKeyNotFound)) + flag(errors.Is(errWin, db.ErrKeyNotFound)) + flag(err2 == nil)
+}
+
+// Which signature of known/C05.json documents the defect each probed repair removes.
+var fixSigs = [4][]string{
+	{"running-filter-diverges-after-failed-store-commit", "running-filter-diverges-after-failed-revert-commit",
+		"running-filter-init-error-is-sticky-after-failed-write"},
+	{"restart-trusts-stale-snapshot-after-revert"},
+	{"restart-trusts-persisted-window-of-incomplete-window"},
+	{"filter-init-error-cached-after-failed-init-write"},
+}
+
+// checkVariantAgainstKnown: the Lean side claims theorems for a definite variant of the code. A
+// defect that known/C05.json records as FIXED must be probed as repaired; otherwise the tree has
+// regressed (or the record is wrong) and neither the model variant nor the claimed theorems are
+// the right ones — never a green run.
+func checkVariantAgainstKnown(res *lib.Result, flags string) {
+	raw, err := os.ReadFile("known/C05.json")
+	if err != nil {
+		if raw, err = os.ReadFile("/verif/known/C05.json"); err != nil {
+			res.Fatalf("cannot read known/C05.json to check the probed code variant %s against it: %v", flags, err)
+			return
+		}
+	}
+	var k struct {
+		Known []struct {
+			Sig string `json:"sig"`
+		} `json:"known"`
+		Fixed []struct {
+			Sig string `json:"sig"`
+		} `json:"fixed"`
+	}
+	if err := json.Unmarshal(raw, &k); err != nil {
+		res.Fatalf("known/C05.json: %v", err)
+		return
+	}
+	fixed := map[string]bool{}
+	for _, e := range k.Fixed {
+		fixed[e.Sig] = true
+	}
+	for i, sigs := range fixSigs {
+		for _, sig := range sigs {
+			if fixed[sig] && flags[i] == '0' {
+				res.Fatalf("known/C05.json records %q as fixed, but the code under test behaves as before the fix (probed variant %s): "+
+					"regression, or the record is wrong; the model variant and the claimed theorems do not apply", sig, flags)
+			}
+		}
+	}
 }
 
 // selfTestDriver checks the driver's closed-form base image against the model's own store
@@ -91,7 +154,7 @@ func probeFixesInner() string {
 func selfTestDriver(r *runner) {
 	drv := r.driver()
 	defer r.release(drv)
-	lines := []string{"cfg 4 000"}
+	lines := []string{"cfg 4 0000"}
 	want := []string{"ok"}
 	rng := lib.NewRNG(7)
 	g := lib.NewChainGen(rng, false, lib.DefaultGenOptions())
@@ -109,7 +172,7 @@ func selfTestDriver(r *runner) {
 	want = append(want, "same", "bad-op")
 	got, err := drv.AskAll(lines)
 	if err != nil {
-		r.res.Note("driver self-test: %v", err)
+		r.res.Fatalf("Lean driver died during its self-test: %v", err)
 		return
 	}
 	r.res.Compared(len(lines))
